@@ -1,8 +1,12 @@
 (* C10 -- Integer-domain functions agree with exact big-integer mathematics.
    Property theorems only; each closed by [exact].  Models: coq/Intfns/Limbs.v
    (limb level), Arith.v (value / rational level), Text.v (words, roman,
-   char, codepoint), Float.v (floor / ceil / round through f64, and the exact
-   integer version proposed as the repair). *)
+   char, codepoint), Float.v (floor / ceil / round: exact integer division as
+   of fend 7d3085c; the earlier f64 route is kept as q_round_old).
+   Defects found by this property and repaired in fend: 2c2d128 (try_as_usize
+   on leading zero limbs), 7d3085c (floor/ceil/round through f64), 07532bc
+   (nPr accepted a negative r).  The theorems about the old code are kept at
+   the end as documentation. *)
 From FendV Require Import Base.Prelude Intfns.Limbs Intfns.LimbsProofs Intfns.Arith
   Intfns.ArithProofs Intfns.Text Intfns.WordsProofs Intfns.RomanProofs Intfns.Float
   Intfns.FloatProofs.
@@ -107,23 +111,15 @@ Theorem C10_domain_errors : forall q, rat_wf q = true -> ~ denotes_nat q ->
   (forall b, rat_wf b = true ->
      is_err (q_modulo q b) /\ is_err (q_modulo b q) /\
      is_err (q_combination q b) /\ is_err (q_combination b q) /\
-     is_err (q_permutation q b)).
+     is_err (q_permutation q b) /\ is_err (q_permutation b q)).
 Proof. exact domain_errors_lemma. Qed.
 Print Assumptions C10_domain_errors.
 
-(* nPr with a bad second argument.  Full-strength statement, refuted:
-     rat_wf a -> rat_wf b -> ~ denotes_nat b -> is_err (q_permutation a b)
-   (permutation only looks at n and n - r: 5 nPr (-1) = 5!/6!) *)
-Theorem C10_npr_domain_refuted : exists a b q, rat_wf a = true /\ rat_wf b = true /\
-  ~ denotes_nat b /\ q_permutation a b = Ok q.
-Proof. exact npr_domain_refuted_lemma. Qed.
-Print Assumptions C10_npr_domain_refuted.
-
-(* outside the class "r is a negative integer" the error is raised *)
-Theorem C10_npr_domain_except_known : forall a b, rat_wf a = true -> rat_wf b = true ->
-  ~ denotes_nat b -> known_C10_npr_negative_r b = false -> is_err (q_permutation a b).
-Proof. exact npr_domain_except_known_lemma. Qed.
-Print Assumptions C10_npr_domain_except_known.
+(* nPr rejects a bad argument on either side (second argument: since 07532bc) *)
+Theorem C10_npr_domain : forall a b, rat_wf a = true -> rat_wf b = true ->
+  ~ denotes_nat a \/ ~ denotes_nat b -> is_err (q_permutation a b).
+Proof. exact q_permutation_domain. Qed.
+Print Assumptions C10_npr_domain.
 
 (* r > n, modulus zero or negative *)
 Theorem C10_domain_errors_binary : forall a b n r, rat_repr a n -> rat_repr b r ->
@@ -199,44 +195,67 @@ Print Assumptions C10_codepoint_char.
 
 (* ---------------- floor / ceil / round ---------------- *)
 
-(* full-strength statement, refuted on today's code:
-     forall mode q, rat_wf q = true ->
-       exists r, q_round mode q = Ok r /\ rat_is_Z r (round_spec mode q) = true *)
-Theorem C10_floor_refuted : exists q, rat_wf q = true /\
-  exists r, q_round RFloor q = Ok r /\ rat_is_Z r (round_spec RFloor q) = false.
+(* BigRat::round_to_integer: for every rational the result is the integer
+   floor / ceiling / nearest integer (halves away from zero), denominator 1 *)
+Theorem C10_floor_spec : forall q, rat_wf q = true ->
+  exists r, q_round RFloor q = Ok r /\ dval r = 1 /\ rat_is_Z r (round_spec RFloor q) = true.
+Proof. exact floor_spec_lemma. Qed.
+Print Assumptions C10_floor_spec.
+
+Theorem C10_ceil_spec : forall q, rat_wf q = true ->
+  exists r, q_round RCeil q = Ok r /\ dval r = 1 /\ rat_is_Z r (round_spec RCeil q) = true.
+Proof. exact ceil_spec_lemma. Qed.
+Print Assumptions C10_ceil_spec.
+
+Theorem C10_round_spec : forall q, rat_wf q = true ->
+  exists r, q_round RRound q = Ok r /\ dval r = 1 /\ rat_is_Z r (round_spec RRound q) = true.
+Proof. exact round_spec_lemma. Qed.
+Print Assumptions C10_round_spec.
+
+(* ---------------- documentation of the repaired defects ---------------- *)
+
+(* before 7d3085c (q_round_old = from_f64 . floor . into_f64) the statement
+   above failed: computed witnesses 10^20 + 1/2, 3 + 10^-30, 1/2 - 10^-30 *)
+Theorem C10_floor_old_refuted : exists q, rat_wf q = true /\
+  exists r, q_round_old RFloor q = Ok r /\ rat_is_Z r (round_spec RFloor q) = false.
 Proof. exact floor_refuted_ex. Qed.
-Print Assumptions C10_floor_refuted.
+Print Assumptions C10_floor_old_refuted.
 
-Theorem C10_ceil_refuted : exists q, rat_wf q = true /\
-  exists r, q_round RCeil q = Ok r /\ rat_is_Z r (round_spec RCeil q) = false.
+Theorem C10_ceil_old_refuted : exists q, rat_wf q = true /\
+  exists r, q_round_old RCeil q = Ok r /\ rat_is_Z r (round_spec RCeil q) = false.
 Proof. exact ceil_refuted_ex. Qed.
-Print Assumptions C10_ceil_refuted.
+Print Assumptions C10_ceil_old_refuted.
 
-Theorem C10_round_refuted : exists q, rat_wf q = true /\
-  exists r, q_round RRound q = Ok r /\ rat_is_Z r (round_spec RRound q) = false.
+Theorem C10_round_old_refuted : exists q, rat_wf q = true /\
+  exists r, q_round_old RRound q = Ok r /\ rat_is_Z r (round_spec RRound q) = false.
 Proof. exact round_refuted_ex. Qed.
-Print Assumptions C10_round_refuted.
+Print Assumptions C10_round_old_refuted.
 
 (* independent of any floating-point semantics: the conversion back from f64
-   cannot exceed 2^64, so every value from 2^64 + 1 on is rounded wrongly *)
-Theorem C10_round_beyond_u64_wrong : forall mode q r, rneg q = false -> dval q <> 0 ->
+   could not exceed 2^64, so every value from 2^64 + 1 on was rounded wrongly *)
+Theorem C10_round_old_beyond_u64_wrong : forall mode q r, rneg q = false -> dval q <> 0 ->
   (W + 1) * dval q <= nval q ->
-  q_round mode q = Ok r -> rat_is_Z r (round_spec mode q) = false.
+  q_round_old mode q = Ok r -> rat_is_Z r (round_spec mode q) = false.
 Proof. exact round_beyond_u64_wrong_lemma. Qed.
-Print Assumptions C10_round_beyond_u64_wrong.
+Print Assumptions C10_round_old_beyond_u64_wrong.
 
-(* outside the known class (here: integers below 2^53 held in Small limbs)
-   today's code meets the statement *)
-Theorem C10_round_except_known : forall mode q, rat_wf q = true -> known_C10_float q = false ->
-  exists r, q_round mode q = Ok r /\ rat_is_Z r (round_spec mode q) = true.
+(* integers below 2^53 held in Small limbs were rounded correctly *)
+Theorem C10_round_old_except_known : forall mode q, rat_wf q = true -> known_C10_float_old q = false ->
+  exists r, q_round_old mode q = Ok r /\ rat_is_Z r (round_spec mode q) = true.
 Proof. exact round_except_known_lemma. Qed.
-Print Assumptions C10_round_except_known.
+Print Assumptions C10_round_old_except_known.
 
-(* the proposed repair (integer divmod) meets the full-strength statement *)
-Theorem C10_round_exact_spec : forall mode q, rat_wf q = true ->
-  exists r, q_round_exact mode q = Ok r /\ dval r = 1 /\ rat_is_Z r (round_spec mode q) = true.
-Proof. exact round_exact_lemma. Qed.
-Print Assumptions C10_round_exact_spec.
+(* before 07532bc: 5 nPr (-1) = 5!/6! instead of an error; every other bad
+   second argument was rejected *)
+Theorem C10_npr_old_domain_refuted : exists a b q, rat_wf a = true /\ rat_wf b = true /\
+  ~ denotes_nat b /\ q_permutation_old a b = Ok q.
+Proof. exact npr_old_domain_refuted_lemma. Qed.
+Print Assumptions C10_npr_old_domain_refuted.
+
+Theorem C10_npr_old_domain_except_known : forall a b, rat_wf a = true -> rat_wf b = true ->
+  ~ denotes_nat b -> known_C10_npr_negative_r_old b = false -> is_err (q_permutation_old a b).
+Proof. exact npr_old_domain_except_known_lemma. Qed.
+Print Assumptions C10_npr_old_domain_except_known.
 
 (* ---------------- the hypotheses are satisfiable ---------------- *)
 
@@ -259,8 +278,8 @@ Example C10_leading_zero_count_accepted : try_as_usize (Large [5; 0]) = Ok 5.
 Proof. reflexivity. Qed.
 
 Example C10_round_class_inhabited :
-  known_C10_float (mkrat true (Small 7) (Small 1)) = false /\
-  known_C10_float (mkrat false (Small 7) (Small 2)) = true.
+  known_C10_float_old (mkrat true (Small 7) (Small 1)) = false /\
+  known_C10_float_old (mkrat false (Small 7) (Small 2)) = true.
 Proof. split; reflexivity. Qed.
 
 Example C10_beyond_u64_inhabited :
